@@ -164,6 +164,24 @@ CHECKS = {
             "balance holds at every class (this clause covers the xward, whose internal share is not a result column).",
             "as C01; configurations with distributed_slack only; xward proportionality not observable from the result tables",
             "TLC-chosen configurations solved by the implementation; proportional sharing decided by TLC", "§5 C10"),
+    "C29": ("model_checking",
+            "ProtectionDef.tla transcribes the stage selection of OCRelay (DTOC/IDMT/IDTOC) and the fuse regions / curve choice in integer "
+            "levels (binary-exact currents and times) and the device life cycle reset -> eval(I) -> status_to_net -> str as a step function; "
+            "Protection.tla enumerates relay kinds x pick-up and time routes x all consistent gradings x curves, fuse routes x data sets x "
+            "monotone point sets, and every history up to the depth, with model invariants (trip iff pick-up, graded => monotone, every "
+            "boundary probed, stateless). Every history is replayed on real OCRelay/Fuse objects on a small net; TLC decides trip/no-trip, "
+            "exact definite times, monotone ordering (inf last), fuse bracketing, activation value and device state for every evaluation.",
+            "inverse-time and fuse curve VALUES decided as ordering/bracketing only; currents fed by overwriting the result table the device reads",
+            "TLC-generated device histories replayed on real protection devices; verdicts by folding the spec's step function in TLC", "§4/§5 C29"),
+    "C11": ("exploration",
+            "Phase3Def.tla models what runpp_3ph does structurally (vector-group class, topology and supply, element mapping wye/delta, level "
+            "patterns, Balanced/Unbalanced classification); Phase3.tla enumerates vector group x topology x up to two elements (kind, bus, "
+            "connection, per-phase pattern, modifiers) through Convert -> MapLoads -> Require with model invariants; every configuration is run "
+            "on runpp_3ph and runpp and TLC decides: equal phase magnitudes = symmetric result and -120/+120 degree angles and thirds of the "
+            "symmetric powers for balanced networks; phases as given, phase sums = totals, per-phase nodal balance and res_bus_3ph bookkeeping always.",
+            "per-phase balance at a bus with a delta element in an unbalanced network is not required (only the three-phase sum); vector groups "
+            "outside {Dyn, YNyn, Yzn} only bound on accept/reject; nodal tolerance 100 micro-MW",
+            "TLC-enumerated configurations run on runpp_3ph/runpp; relations decided by TLC on fixed-point observations", "§5 C11"),
 }
 
 NOT_APPLICABLE = {
